@@ -29,6 +29,7 @@ MANIFEST = {
 
 ADV = ['bad_magic', 'len_over', 'len_zero', 'garbage', 'pre_hello_getblocks', 'pre_hello_data', 'pre_hello_garbage',
        'pre_hello_valid_tx', 'pre_hello_valid_tx', 'pre_hello_valid_block', 'pre_hello_valid_block',
+       'corrupt_body_then_honest', 'corrupt_body_then_honest', 'short_length_valid_block', 'short_length_valid_tx',
        'unknown_msg_type', 'bad_version', 'truncated_payload', 'unknown_data_type', 'data_header', 'getdata_tx',
        'getdata_unknown', 'inv_oversize', 'inv_unknown_type', 'struct_block', 'struct_block_response', 'struct_tx',
        'flip_known_block', 'flip_frame', 'splice', 'dup_flood', 'hello_twice', 'peers_weird', 'trailing', 'truncate_then_valid',
@@ -183,6 +184,45 @@ def execute(script):
                 if not txs:
                     return
                 send(frame(hdr() + M.DataMessage(M.DATA_TRANSACTION, txs[0]).serialize()))
+            elif kind == 'corrupt_body_then_honest':
+                # the adversary sends the NEXT valid block with its header intact and its body damaged (same block id);
+                # afterwards an honest peer relays the intact block, which must be accepted as if nothing had happened
+                hb = chain.head()
+                ts = hb.ts + 1
+                if ts > w.node_clock() + 10 or any(k_ == 'block' for k_, _ in honest_pending):
+                    return
+                txs, _, _ = sim.build_txs(hb, [{'ins': [a], 'outs': [[a, 1], [b, 2]], 'fee_ppm': 0}])
+                blk = W.roundtrip(W.mine_honest(W.view_at(sim.cs, hb.id), txs, W.key(a % 12), ts, nonce0=b))
+                raw = bytearray(blk.serialize())
+                hl = len(blk.header.serialize())
+                pos = hl + 1 + (a * 7919 + b) % (len(raw) - hl - 1)
+                raw[pos] ^= 1 << (b % 8)
+                send(frame(hdr() + b'\x00\x04\x00' + M.DATA_BLOCK + bytes(raw)))
+                w.settle(2500)
+                hc = w.conn(b % nh)
+                if hc is not None:
+                    hc.send(M.DataMessage(M.DATA_BLOCK, blk))
+                    honest_pending.append(('block', blk))
+            elif kind in ('short_length_valid_block', 'short_length_valid_tx'):
+                # a frame whose length field announces fewer bytes than the (otherwise valid, new) object needs, the rest
+                # following in the same segment: malformed framing, so nothing may come of it
+                hb = chain.head()
+                if kind == 'short_length_valid_block':
+                    ts = hb.ts + 1
+                    if ts > w.node_clock() + 10:
+                        return
+                    obj = M.DataMessage(M.DATA_BLOCK, W.roundtrip(W.mine_honest(W.view_at(sim.cs, hb.id), [], W.key(a % 12), ts, nonce0=b + 7)))
+                else:
+                    taken = set()
+                    for t in expected_pool:
+                        taken |= {(i.output_reference.hash, i.output_reference.index) for i in t.inputs}
+                    txs, _, _ = sim.build_txs(hb, [{'ins': [a], 'outs': [[a, 1]], 'fee_ppm': 0}], taken)
+                    if not txs:
+                        return
+                    obj = M.DataMessage(M.DATA_TRANSACTION, txs[0])
+                payload = hdr() + obj.serialize()
+                k_ = 1 + (a % max(1, min(60, len(payload) - 60)))
+                send(MAGIC + struct.pack('>I', len(payload) - k_) + payload + frame(good))
             elif kind == 'pre_hello_valid_block':
                 hb = chain.head()
                 ts = hb.ts + 1
